@@ -282,6 +282,11 @@ def explore(ctx):
         k = rng.random()
         if k < 0.5:
             return {}, set(names)
+        # an EMPTY list is a list: include=[] selects nothing, exclude=[] excludes nothing
+        if k < 0.56:
+            return {"include": []}, set()
+        if k > 0.96:
+            return {"exclude": []}, set(names)
         sub = [n for n in names if rng.random() < 0.5]
         if k < 0.8:
             return {"include": sub}, set(sub)
@@ -297,6 +302,9 @@ def explore(ctx):
             # its anchors and advance are transformed and propagated like anyone's
             desc["glyphs"].append({"name": "blankbase", "unicodes": [], "width": Fr(360), "contours": [], "components": [],
                                    "anchors": [("top", Fr(180), Fr(300)), ("bottom", Fr(180), Fr(-20))]})
+        if i % 5 == 3:
+            # ... and a glyph with nothing in it at all but its advances
+            desc["glyphs"].append({"name": "space", "unicodes": [0x20], "width": Fr(250), "contours": [], "components": [], "anchors": []})
         if i % 5 == 4:
             # always, for anchor propagation: a base with top / center / bottom, a mark that attaches at top (_top + top) and
             # ALSO carries a plain `center` anchor it does not attach by; composites of the two (plain, transformed, with an
@@ -411,8 +419,8 @@ def explore(ctx):
                 # included glyph above it cannot be mapped exactly: the statement is checked for included glyphs
                 # all of whose references stay inside the included set (or reach only untouched glyphs)
                 tainted = {n for n in names if n not in included and any(d in included for d in reach(n, set()))}
-                incl_eff = [n for n in names if n in included and not (reach(n, set()) & tainted) and
-                            (by0[n]["contours"] or by0[n]["components"] or by0[n]["anchors"])]
+                # (a glyph with nothing in it -- space -- is included like anyone: its advances are mapped too, F44)
+                incl_eff = [n for n in names if n in included and not (reach(n, set()) & tainted)]
                 skipped = [n for n in names if n in included and (reach(n, set()) & tainted)]
                 if skipped:
                     ctx.klass("transform:included-above-excluded-composite(not guaranteed)", len(skipped))
